@@ -1,0 +1,61 @@
+//go:build verif
+
+// Contracts for package action/rewards: the validator reward withdrawal handler (C13, C02, C03, C04).
+// Comment-only file, read by /verif/govc.
+//
+// Ledgers: cum(rm.RewardCm)[rwBalKey(prefix, v)]  matured (withdrawable) reward balance of validator v
+//          cum(rm.RewardCm)[rwWdrKey(prefix, v)]  total withdrawn by validator v
+//          bal(ctx.Balances)[balKey(a, "OLT")]    balance of address a
+
+package rewards
+
+// the decoded message (same uninterpreted decoding in Validate and in the body)
+//@ ghost func mWd(data bytes) Withdraw = unm(data, "Withdraw")
+
+// Validate checks the signer's signature, the fee, the currency name and the syntax of the validator address.
+// The sign and the int64 range of the amount are checked by the body (runWithdraw rejects an invalid coin right
+// after ToCoinWithBase, fix 3847564 / 6d5dd82), so no fact about the value is exported here.
+//@ func (withdrawTx).Validate
+//@   implements action.Tx
+//@   ensures result0 ==> len(signedTx.Signatures) == 1 && sigOK(rawBytesOf(signedTx.RawTx), mWd(signedTx.Data).SignerAddress, signedTx.Signatures[0])   // C04.validate
+//@   exports len(sigs) == 1                                                                                         // C04.validated-facts
+//@   exports raw.Fee.Price.Currency == ctx.FeePool.feeOpt.FeeCurrency.Name && raw.Fee.Price.Value >= 0              // C04.validated-facts
+
+// ProcessCheck / ProcessDeliver call runWithdraw; its context facts beyond ctxOK are environment assumptions
+// (the context is built by app.context.Action from the node's stores).
+//@ func (withdrawTx).ProcessCheck
+//@   implements action.Tx
+//@   assumes ctx.Validators != nil && ctx.RewardMasterStore != nil && ctx.RewardMasterStore.RewardCm != nil && ctx.RewardMasterStore.Reward != nil && ctx.RewardMasterStore.Reward.rewardOptions != nil   // A-CTX the action context carries the validator and reward stores with options set
+//@ func (withdrawTx).ProcessDeliver
+//@   implements action.Tx
+//@   assumes ctx.Validators != nil && ctx.RewardMasterStore != nil && ctx.RewardMasterStore.RewardCm != nil && ctx.RewardMasterStore.Reward != nil && ctx.RewardMasterStore.Reward.rewardOptions != nil   // A-CTX the action context carries the validator and reward stores with options set
+//@ func (withdrawTx).ProcessFee
+//@   implements action.Tx
+
+// v = ValidatorAddress, s = SignerAddress, pool = the rewards pool address of the reward options.
+// d = the amount by which v's matured balance went down (the coin: int64 truncation of the message value times the currency base).
+//@ ghost func wdMatKey(ctx *action.Context, data bytes) string = rwBalKey(ctx.RewardMasterStore.RewardCm.prefix, mWd(data).ValidatorAddress)
+//@ ghost func wdWdrKey(ctx *action.Context, data bytes) string = rwWdrKey(ctx.RewardMasterStore.RewardCm.prefix, mWd(data).ValidatorAddress)
+//@ ghost func wdPoolKey(ctx *action.Context, data bytes) string = balKey(bytes(ctx.RewardMasterStore.Reward.rewardOptions.RewardPoolAddress), mWd(data).WithdrawAmount.Currency)
+//@ ghost func wdSignerKey(data bytes) string = balKey(mWd(data).SignerAddress, mWd(data).WithdrawAmount.Currency)
+
+//@ func runWithdraw
+//@   requires ctxOK(ctx) && ctx.Validators != nil                                                                  // C18.ctx
+//@   requires ctx.RewardMasterStore != nil && ctx.RewardMasterStore.RewardCm != nil && ctx.RewardMasterStore.Reward != nil && ctx.RewardMasterStore.Reward.rewardOptions != nil
+//@   ensures result0 ==> mWd(tx.Data).WithdrawAmount.Value >= 0 && mWd(tx.Data).WithdrawAmount.Value <= 9223372036854775807 && has(ctx.Currencies.nameMap, mWd(tx.Data).WithdrawAmount.Currency)   // C13.amount-checked
+// C13: never more than has matured; matured balance, withdrawn counter, pool and signer move by the same amount d >= 0
+//@   ensures result0 ==> cum(ctx.RewardMasterStore.RewardCm)[wdMatKey(ctx, tx.Data)] <= old(cum(ctx.RewardMasterStore.RewardCm))[wdMatKey(ctx, tx.Data)] && cum(ctx.RewardMasterStore.RewardCm)[wdMatKey(ctx, tx.Data)] >= 0   // C13.withdraw-le-matured
+//@   ensures result0 ==> old(cum(ctx.RewardMasterStore.RewardCm))[wdMatKey(ctx, tx.Data)] - cum(ctx.RewardMasterStore.RewardCm)[wdMatKey(ctx, tx.Data)] == mWd(tx.Data).WithdrawAmount.Value * curBase(ctx.Currencies.nameMap[mWd(tx.Data).WithdrawAmount.Currency].Decimal)   // C13.withdraw-amount
+//@   ensures result0 ==> cum(ctx.RewardMasterStore.RewardCm)[wdWdrKey(ctx, tx.Data)] - old(cum(ctx.RewardMasterStore.RewardCm))[wdWdrKey(ctx, tx.Data)] == old(cum(ctx.RewardMasterStore.RewardCm))[wdMatKey(ctx, tx.Data)] - cum(ctx.RewardMasterStore.RewardCm)[wdMatKey(ctx, tx.Data)]   // C13.withdrawn-delta
+//@   ensures result0 && wdPoolKey(ctx, tx.Data) != wdSignerKey(tx.Data) ==> old(bal(ctx.Balances))[wdPoolKey(ctx, tx.Data)] - bal(ctx.Balances)[wdPoolKey(ctx, tx.Data)] == old(cum(ctx.RewardMasterStore.RewardCm))[wdMatKey(ctx, tx.Data)] - cum(ctx.RewardMasterStore.RewardCm)[wdMatKey(ctx, tx.Data)]   // C02.delta-pool
+//@   ensures result0 && wdPoolKey(ctx, tx.Data) != wdSignerKey(tx.Data) ==> bal(ctx.Balances)[wdSignerKey(tx.Data)] - old(bal(ctx.Balances))[wdSignerKey(tx.Data)] == old(cum(ctx.RewardMasterStore.RewardCm))[wdMatKey(ctx, tx.Data)] - cum(ctx.RewardMasterStore.RewardCm)[wdMatKey(ctx, tx.Data)]   // C02.delta-signer
+//@   ensures result0 ==> forall c string :: balTotal(ctx.Balances)[c] == old(balTotal(ctx.Balances))[c]          // C02.conserve
+// C03: only the rewards pool is debited in the balance ledger ...
+//@   ensures result0 ==> forall k string :: bal(ctx.Balances)[k] < old(bal(ctx.Balances))[k] ==> k == wdPoolKey(ctx, tx.Data)   // C03.only-pool-debited
+// ... only v's records change in the reward ledger ...
+//@   ensures forall k string :: cum(ctx.RewardMasterStore.RewardCm)[k] != old(cum(ctx.RewardMasterStore.RewardCm))[k] ==> k == wdMatKey(ctx, tx.Data) || k == wdWdrKey(ctx, tx.Data)   // C03.only-named-validator
+// ... and v's matured rewards are debited only on the signature of v's stake account. The code establishes this
+// only while v is still in the validator store; for a validator that has been removed (power 0 => deleted at
+// EndBlock) ANY signer may withdraw v's matured rewards to itself ("Validator Does not exist , Allowing withdraw").
+//@   ensures result0 && vHasRec(ctx.Validators)[str(mWd(tx.Data).ValidatorAddress)] ==> str(vRec(ctx.Validators)[str(mWd(tx.Data).ValidatorAddress)].StakeAddress) == str(mWd(tx.Data).SignerAddress)   // C03.stake-account-signed
+//@   claims result0 && cum(ctx.RewardMasterStore.RewardCm)[wdMatKey(ctx, tx.Data)] < old(cum(ctx.RewardMasterStore.RewardCm))[wdMatKey(ctx, tx.Data)] ==> vHasRec(ctx.Validators)[str(mWd(tx.Data).ValidatorAddress)] && str(vRec(ctx.Validators)[str(mWd(tx.Data).ValidatorAddress)].StakeAddress) == str(mWd(tx.Data).SignerAddress)   // C03.only-owner-debits-matured
